@@ -184,6 +184,16 @@ def mutate_tree(rng, ents):
     if rng.random() < 0.5:
         out.extend(e for e in gen_tree(rng, 1, 0.0)
                    if e["n"] not in {x["n"] for x in out})
+    grng = random.Random(rng.random())
+    if grng.random() < 0.25:
+        # submodule entries at names that are, or were, symlinks or
+        # directories (the link may still lie on disk from a refused or
+        # partial earlier checkout)
+        cands = [e for e in ents if e["k"] in ("link", "dir") and
+                 b"/" not in bytes.fromhex(e["n"])]
+        for e in grng.sample(cands, min(len(cands), 2)):
+            out[:] = [x for x in out if x["n"] != e["n"]]
+            out.append({"n": e["n"], "k": "gitlink"})
     for e in ents:
         name = bytes.fromhex(e["n"])
         if e["k"] == "link" and len(name) >= 2 and b"/" not in name and \
@@ -265,6 +275,11 @@ def raw_tree(store, ents, ctx):
             b = Blob.from_string(os.fsencode(t))
             store.add_object(b)
             items.append((name, 0o120000, b.id))
+        elif e["k"] == "gitlink":
+            # a submodule entry: checkout makes a directory with a .git
+            # placeholder at this path
+            items.append((name, 0o160000,
+                          hashlib.sha1(b"sub" + name).hexdigest().encode()))
         else:
             items.append((name, 0o040000, raw_tree(store, e["e"], ctx)))
 
@@ -321,6 +336,8 @@ def make_patch(ents, ctx, existing=()):
     modifies the ones in ``existing``)."""
     out = []
     for path, kind, e in flat_entries(ents):
+        if kind == "gitlink":
+            continue  # a patch does not carry submodule entries
         if kind == "link":
             t = e["t"]
             if t.startswith("ABS:"):
